@@ -85,12 +85,39 @@ class LoopStep:
             inner = loop.body[0]
             self.inner_iter = ast.unparse(inner.iter)
             self.inner_targets = _names(inner.target)
-            if inner.orelse or not set(_names(inner.iter)) & set(self.outer_targets):
-                self.why = f"inner loop of loop #{ordinal} of {qualname} does not iterate over a part of the outer element"
+            if inner.orelse:
+                self.why = f"inner loop of loop #{ordinal} of {qualname} has an else clause"
                 return
             body = inner.body
         else:
             body = loop.body
+        # "one generic iteration" is only meaningful when the body does not change the collection that is iterated
+        # (a list mutated while it is iterated skips / repeats elements): refuse such loops
+        iters = [loop.iter] + ([loop.body[0].iter] if flatten else [])  # type: ignore[attr-defined]
+        def live_parts(e: ast.expr) -> List[ast.expr]:
+            # list(x) / tuple(x) / sorted(x) / set(x) / copy.copy(x) iterate a copy: x may be changed by the body
+            if isinstance(e, ast.Call) and ast.unparse(e.func) in ("list", "tuple", "sorted", "set", "frozenset", "dict",
+                                                                   "copy.copy", "copy.deepcopy"):
+                return []
+            out: List[ast.expr] = [e] if isinstance(e, (ast.Name, ast.Attribute)) else []
+            for ch in ast.iter_child_nodes(e):
+                if isinstance(ch, ast.expr):
+                    out += live_parts(ch)
+            return out
+        roots = {ast.unparse(r) for it in iters for r in live_parts(it) if ast.unparse(r) not in ("self",)}
+        for st in body:
+            for n in ast.walk(st):
+                recv = None
+                if isinstance(n, ast.Call) and isinstance(n.func, ast.Attribute) and n.func.attr in (
+                        "append", "extend", "add", "update", "discard", "remove", "pop", "clear", "insert", "setdefault",
+                        "sort", "reverse", "popitem"):
+                    recv = n.func.value
+                elif isinstance(n, ast.Subscript) and isinstance(n.ctx, (ast.Store, ast.Del)):
+                    recv = n.value
+                if recv is not None and ast.unparse(recv) in roots:
+                    self.why = (f"the body of loop #{ordinal} of {qualname} (line {n.lineno}) changes `{ast.unparse(recv)}`, the "
+                                "collection it iterates over: one generic iteration does not describe such a loop")
+                    return
         if loop.orelse:
             self.why = "for ... else"
             return
